@@ -17,6 +17,7 @@ func init() {
 	Register("C18", func(rc *RunCtx) {
 		cfg := GenQCfg(rc.Tape, QProfile{ForceReal: true, ShapeFaults: true, Corrupt: true, RefNames: true, Redirects: true})
 		cfg.OfferHeaders = true
+		cfg.ActionAuth = rc.Tape.Bool(1, 3, "actions-carry-authorization")
 		qr := RunQueue(rc, cfg)
 		CheckC18(rc, qr)
 		finishQ(rc, qr)
